@@ -229,6 +229,11 @@ func (db *DB) writeLocked(batch, ourBatch *Batch, merge, sync bool) error {
 
 	// Write journal.
 	if err := db.writeJournal(batches, seq, sync); err != nil {
+		// The record may already be (partly) in the journal file, e.g. when
+		// only the sync failed. Never hand its sequence numbers to a later
+		// write: on recovery the later, acknowledged record would be
+		// rejected as out of sequence and silently dropped.
+		db.addSeq(uint64(batchesLen(batches)))
 		db.unlockWrite(overflow, merged, err)
 		return err
 	}
